@@ -16,3 +16,17 @@ package tif
 //@        && (forall j int :: 0 <= j && j < k ==> base.tlog[old(base.tlogn) + j] == ref(old(tf.thenSteps[j])))
 //@        && (result == base.DROP ==> k >= 1 && base.tres[old(base.tlogn) + k - 1] == 0)
 //@        && (result == base.PASS ==> k == old(len(tf.thenSteps)))
+
+// ==== configuration: verify => construct (C16) ===================================================================================
+// the nested steps are verified recursively (bsupport.VerifyTransformConfigs) before anything is constructed
+//@ pure func cfgok(c *Config, s base.LogSchema) bool := len(c.Then) > 0 && bsupport.tcsok(c.Then, s) && len(c.Match) > 0 && bmatch.mcfgok(c.Match, s)
+//@ func (c *Config) VerifyConfig(schema base.LogSchema) error
+//@   property C16
+//@   requires c != nil && forall i int :: 0 <= i && i < len(c.Then) ==> c.Then[i].Value != nil
+//@   modifies nothing
+//@   ensures[accepted-config-is-constructible] result == nil ==> cfgok(c, schema)
+//@ func (c *Config) NewTransform(schema base.LogSchema, parentLogger logger.Logger, customCounterRegistry base.LogCustomCounterRegistry) base.LogTransform
+//@   property C16
+//@   requires c != nil && cfgok(c, schema)
+//@   modifies nothing
+//@   ensures  result != nil
